@@ -191,7 +191,7 @@ def _gen_cat(rng):
 def gen_descs(ctx):
   rng = ctx.rng
   out = []
-  for _ in range(ctx.n(400, 8000)):
+  for _ in range(ctx.n(600, 8000)):
     out.append(_gen_cat(rng) if rng.random() < 0.25 else _gen_pwl(rng))
   return out
 
